@@ -57,6 +57,12 @@ theorem Net.readSegs_some (segs : List Bytes) (k : Nat) (d : Bytes) (segs' : Lis
 def Bufio.WF (b : Bufio) : Prop :=
   ∀ e, b.err = some e → b.net.segs.flatten = [] ∧ e = b.net.fin.toErr
 
+/-- The buffer never holds more than its size. -/
+def Bufio.Fits (b : Bufio) : Prop := b.buf.length ≤ b.cap
+
+theorem Bufio.new_fits (cap : Nat) (n : Net) : (Bufio.new cap n).Fits := by
+  simp [Bufio.new, Bufio.Fits]
+
 theorem Bufio.new_wf (cap : Nat) (n : Net) : (Bufio.new cap n).WF := by
   intro e h; simp [Bufio.new] at h
 
@@ -148,5 +154,60 @@ theorem Bufio.read_spec (b : Bufio) (k : Nat) (hk : 0 < k) (hw : b.WF)
         have : 0 < (b.buf.take k).length := by simp only [List.length_take]; omega
         exact List.length_pos_iff.mp this
       simp [Bufio.rem, hbuf, this]
+
+end Req.C02
+
+namespace Req.C02
+open Req.Proto
+
+/-- `Read` keeps the buffer within its size. -/
+theorem Bufio.read_fits (b : Bufio) (k : Nat) (hf : b.Fits) (d : Bytes) (e : Option IOErr) (b' : Bufio)
+    (h : b.read k = ((d, e), b')) : b'.Fits := by
+  unfold Bufio.read at h
+  unfold Bufio.Fits at hf ⊢
+  split at h
+  · split at h <;> (simp only [Prod.mk.injEq] at h; obtain ⟨_, rfl⟩ := h; exact hf)
+  · split at h
+    · split at h
+      · simp only [Prod.mk.injEq] at h; obtain ⟨_, rfl⟩ := h; exact hf
+      · split at h
+        · unfold Net.read at h
+          rcases hr : Net.readSegs b.net.segs k with ⟨od, segs'⟩
+          rw [hr] at h
+          cases od <;> (simp only [Prod.mk.injEq] at h; obtain ⟨_, rfl⟩ := h; exact hf)
+        · unfold Net.read at h
+          rcases hr : Net.readSegs b.net.segs b.cap with ⟨od, segs'⟩
+          rw [hr] at h
+          cases od with
+          | none => simp only [Prod.mk.injEq] at h; obtain ⟨_, rfl⟩ := h; exact hf
+          | some d0 =>
+            simp only [Prod.mk.injEq] at h
+            obtain ⟨_, rfl⟩ := h
+            have := (Net.readSegs_some _ _ _ _ hr).2.1
+            simp only [List.length_drop]
+            omega
+    · simp only [Prod.mk.injEq] at h
+      obtain ⟨_, rfl⟩ := h
+      simp only [List.length_drop]
+      omega
+
+/-- `fill` on a buffer with free space while the connection still has bytes: at least one
+more byte is buffered, nothing is lost. -/
+theorem Bufio.fill_spec (b : Bufio) (hw : b.WF) (hf : b.Fits) (hfree : b.buf.length < b.cap)
+    (hmore : b.net.segs.flatten ≠ []) (herr : b.err = none) :
+    ∃ d, d ≠ [] ∧ b.fill.buf = b.buf ++ d ∧ b.fill.rem = b.rem ∧ b.fill.WF ∧ b.fill.Fits ∧
+      b.fill.cap = b.cap ∧ b.fill.err = none ∧ b.fill.net.fin = b.net.fin := by
+  unfold Bufio.fill Net.read
+  rcases hr : Net.readSegs b.net.segs (b.cap - b.buf.length) with ⟨od, segs'⟩
+  cases od with
+  | none =>
+    have := (Net.readSegs_none _ _ _ hr).1
+    exact absurd this hmore
+  | some d =>
+    obtain ⟨hfl, hlen, hne⟩ := Net.readSegs_some _ _ _ _ hr
+    refine ⟨d, hne (by omega), rfl, ?_, ?_, ?_, rfl, herr, rfl⟩
+    · simp [Bufio.rem, hfl]
+    · intro e he; simp [herr] at he
+    · simp only [Bufio.Fits, List.length_append]; unfold Bufio.Fits at hf; omega
 
 end Req.C02
